@@ -49,17 +49,21 @@ type vhAttWorld struct {
 	newAtts   [2]bool // attachments of the new revision
 	tombstone bool
 	onBranch  bool    // the new revision goes onto the conflicting (non-winning) branch
+	displace  bool    // ... and takes over as the current revision (same generation, higher digest)
+	curRevpos int     // generation at which the winning revision's attachments were added (1, or 3 = by the winner itself)
 	uploaded  [2]bool // which of the new revision's attachments arrive with data (the others are stubs carried over from the parent)
 }
 
 var vhAtt *vhAttWorld
 
-func vhAttMeta(has [2]bool) AttachmentsMeta {
+func vhAttMeta(has [2]bool) AttachmentsMeta { return vhAttMetaAt(has, 1) }
+
+func vhAttMetaAt(has [2]bool, revpos int) AttachmentsMeta {
 	m := AttachmentsMeta{}
 	names := [2]string{"x.txt", "y.txt"}
 	for i, h := range has {
 		if h {
-			m[names[i]] = map[string]any{"digest": vhAttDigests[i], "ver": 2, "revpos": 1, "stub": true}
+			m[names[i]] = map[string]any{"digest": vhAttDigests[i], "ver": 2, "revpos": revpos, "stub": true}
 		}
 	}
 	return m
@@ -75,7 +79,12 @@ func vhAttUnmarshal(c *DatabaseCollection, ctx context.Context, docid string, da
 	}
 	doc.SetRevTreeID("3-b")
 	doc.Channels = channels.ChannelMap{}
-	doc.SetAttachments(vhAttMeta(w.curAtts))
+	revpos := w.curRevpos
+	if revpos == 0 {
+		revpos = 1
+	}
+	doc.SetAttachments(vhAttMetaAt(w.curAtts, revpos))
+	doc._rawBody = []byte("{}")
 	doc.HLV = NewHybridLogicalVector()
 	doc.HLV.SourceID, doc.HLV.Version = "A", 3
 	return doc, nil
@@ -89,7 +98,7 @@ func vhAttGetRevision(c *DatabaseCollection, ctx context.Context, doc *Document,
 		// the real getRevision answers with the document-level attachment list for the current revision
 		return []byte("{}"), doc.Attachments(), nil, nil
 	}
-	if br, _ := vhAttBranchRev(vhAtt); vhAtt.onBranch && revid == br {
+	if br, _ := vhAttBranchRev(vhAtt); vhAtt.onBranch && (revid == br || (vhAtt.displace && revid == "3-b")) {
 		// a non-winning revision's attachments are read from its stored body; the harness hands back what the write stored
 		return []byte("{}"), vhAttStoredBranchAtts(doc, revid), nil, nil
 	}
@@ -99,6 +108,9 @@ func vhAttGetRevision(c *DatabaseCollection, ctx context.Context, doc *Document,
 
 // vhAttBranchRev: the revision written by an on-branch write (child of the conflicting leaf, or a new conflicting leaf).
 func vhAttBranchRev(w *vhAttWorld) (rev, parent string) {
+	if w.displace {
+		return "3-c", "2-a"
+	}
 	if w.hasLeaf {
 		return "3-a", "2-a"
 	}
@@ -366,6 +378,59 @@ func VHarness_C14_BranchWrite() {
 		}
 		if before && !after {
 			vCover("branch-attachment-obsolete")
+			vAssert(deleted, "attachment data no longer referenced by any leaf revision is cleaned up")
+		}
+		if !before {
+			vAssert(!deleted, "nothing that was not referenced before the write is deleted")
+		}
+	}
+}
+
+// VHarness_C14_DisplacedWinner: a revision written onto the conflicting branch that takes over as the current revision
+// (3-c, child of the conflicting leaf 2-a, same generation as the winner 3-b and a higher digest). The displaced winner
+// 3-b stays a leaf: its attachments - whether added long ago or by 3-b itself - must be recorded with its backed-up
+// body and their data must stay; the document now lists the new revision's attachments.
+func VHarness_C14_DisplacedWinner() {
+	ctx := context.Background()
+	w := &vhAttWorld{curAtts: vhAttSubset(), hasLeaf: true, onBranch: true, displace: true, curRevpos: 1}
+	if vNondetBool() {
+		w.curRevpos = 3
+		vCover("winner-added-its-own-attachments")
+	}
+	w.leafAtts = vhAttSubset()
+	vhAttNewRevision(w, w.leafAtts)
+	vhAtt = w
+	col, store := vhAttSetup()
+	callback := func(d *Document) (*Document, updatedAttachments, bool, *uint32, error) {
+		if err := d.History.addRevision(ctx, d.ID, RevInfo{ID: "3-c", Parent: "2-a"}); err != nil {
+			return nil, nil, false, nil, err
+		}
+		nd := &Document{ID: d.ID, RevID: "3-c"}
+		nd.SetAttachments(vhAttMeta(w.newAtts))
+		return nd, vhAttUploads(w), false, nil, nil
+	}
+	doc, _, err := col.updateAndReturnDoc(ctx, "doc", true, nil, nil, ExistingVersion, nil, false, false, callback)
+	vAssert(err == nil, "the write succeeds")
+	if err != nil {
+		return
+	}
+	vAssert(doc.GetRevTreeID() == "3-c", "the new revision takes over as the current revision")
+	names := [2]string{"x.txt", "y.txt"}
+	stored := vhAttStoredBranchAtts(doc, "3-b")
+	for i, dg := range vhAttDigests {
+		key := MakeAttachmentKey(AttVersion2, "doc", dg)
+		deleted := vhAttHas(store.deleted, key)
+		_, listed := doc.Attachments()[names[i]]
+		vAssert(listed == w.newAtts[i], "the document lists the attachments of the revision that became current")
+		_, onOld := stored[names[i]]
+		vAssert(onOld == w.curAtts[i], "the displaced winner, still a leaf, keeps its attachments recorded with its stored body")
+		before := w.curAtts[i] || w.leafAtts[i]
+		after := w.curAtts[i] || w.newAtts[i]
+		if after {
+			vCover("displaced-attachment-still-referenced")
+			vAssert(!deleted, "attachment data still referenced by a leaf revision is not removed")
+		}
+		if before && !after {
 			vAssert(deleted, "attachment data no longer referenced by any leaf revision is cleaned up")
 		}
 		if !before {
